@@ -10,6 +10,7 @@ MODULES = [
     'contracts.cache',
     'contracts.chain',
     'contracts.config',
+    'contracts.helpers',
 ]
 
 
@@ -23,8 +24,10 @@ class _Lazy(dict):
 
     def get(self, prop, default=None):
         s = _standins()
+        from contracts import integration
+        extra = [integration.make(prop)] if prop in integration.SCENARIOS else []
         table = {'C06': [s.c06_roundtrip], 'C17': [s.c17_parallel_map], 'C14': [s.c14_caches], 'C16': [s.c16_cached], 'C11': [s.c11_placeholders]}
-        return table.get(prop, default if default is not None else [])
+        return table.get(prop, []) + extra
 
 
 EXTRA_CHECKS = _Lazy()
@@ -33,6 +36,9 @@ EXTRA_CHECKS = _Lazy()
 class _LazyReplay(dict):
     def __getitem__(self, name):
         s = _standins()
+        if name == 'integration':
+            from contracts import integration
+            return integration.replay
         return {'c06_roundtrip': s.replay_c06, 'c17_parallel_map': s.replay_c17, 'c14_caches': s.replay_c14, 'c16_cached': s.replay_c16, 'c11_placeholders': s.replay_c11}[name]
 
 
